@@ -1,4 +1,5 @@
 import FxVerif.Model.C15
+import FxVerif.Proofs.C15Sdk
 /-! helper lemmas for the C15 property theorems (core Lean only) -/
 namespace FxVerif.Proofs.C15
 open FxVerif.Gen.C15 FxVerif.Model.C15
@@ -291,7 +292,8 @@ theorem burnDeposits_total {s : State} {pid : Nat} (hb : s.gov = sumAmt s.deps) 
 
 theorem dropInactive_inv {s s' : State} {pid : Nat} (hsh : inactiveSettleShapeOk = true) (hi : Inv s)
     (h : dropInactive pid s = .ok s') : Inv s' := by
-  unfold dropInactive at h
+  rw [dropInactive_eq] at h
+  unfold dropInactiveSpec at h
   split at h
   · cases h
   · rename_i p hp
@@ -354,6 +356,7 @@ theorem finishTally_inv {s s' : State} {pid : Nat} {p : Proposal} {passes burn :
     (hsh : settleShapeOk = true) (hc : execInCacheCtx = true)
     (hi : Inv s) (hp : findProp s.props pid = some p) (h : finishTally passes burn res p pid s = .ok s') : Inv s' := by
   unfold finishTally at h
+  simp only [refundRun_eq, burnRun_eq] at h
   simp only [hsh, Bool.not_true, Bool.false_and, Bool.false_eq_true, if_false] at h
   · have hpid : p.id = pid := findProp_id hp
     simp only [hsh, if_true] at h
@@ -494,7 +497,8 @@ theorem depositRun_eq (s : State) (p : Proposal) (who : Addr) (amt : Nat) : depo
   have e4 : ∀ l, depStep who amt l "setProposal" = { l with s := { l.s with props := putProp l.s.props l.p } } := fun _ => rfl
   have e5 : ∀ l, depStep who amt l "msgMin" = { l with min := minForMsgs l.s.custom (l.min.fx.getD 0) l.p.msgs } := fun _ => rfl
   have e6 : ∀ l, depStep who amt l "activate" =
-      (if l.p.status == .deposit && reaches l.p.total l.min then { l with s := activate l.s l.p } else l) := fun _ => rfl
+      (if l.p.status == .deposit && reaches l.p.total l.min then { l with s := activate l.s l.p } else l) := fun l => by
+    rw [← activateRun_eq]; rfl
   have e7 : ∀ l, depStep who amt l "setDeposit" =
       { l with s := { l.s with deps := addDep l.s.deps l.p.id who amt, paid := l.s.paid ++ [⟨l.p.id, who, amt⟩] } } := fun _ => rfl
   simp only [List.foldl, n1, n2, n3, n4, n5, n6, n7, n8, n9, n10, n11, n12, n13, e1, e2, e3, e4, e5, e7]
@@ -563,7 +567,8 @@ theorem addDeposit_inv {s s' : State} {pid who amt : Nat} (hi : Inv s) (h : addD
 
 theorem submit_inv {s s' : State} {who : Addr} {msgs : List Msg} {initial : Nat} {exp : Bool} (hi : Inv s)
     (h : submit s who msgs initial exp = .ok s') : Inv s' := by
-  unfold submit at h
+  rw [submit_eq] at h
+  unfold submitSpec at h
   split at h
   · cases h
   · split at h
@@ -646,7 +651,7 @@ theorem step_inv (h1 : inactiveSettleShapeOk = true) (h2 : settleShapeOk = true)
       · exact addDeposit_inv hi h
     · exact hi
   | cancel pid who =>
-    simp only [step, Model.C15.ofExcept]
+    simp only [step, Model.C15.ofExcept, cancelRun_eq]
     split
     · rename_i s' h; exact cancel_inv hi h
     · exact hi
@@ -654,7 +659,8 @@ theorem step_inv (h1 : inactiveSettleShapeOk = true) (h2 : settleShapeOk = true)
     simp only [step, Model.C15.ofExcept]
     split
     · rename_i s' h
-      unfold vote at h
+      rw [vote_eq] at h
+      unfold voteSpec at h
       split at h
       · cases h
       · split at h
